@@ -22,6 +22,9 @@
         `LexErr`, `LexErr.label` (`string_literal`, `escape_code`, `unicode_escape`, `quoted_literal`,
         `Error::offset_by`, `DiagnosticMessage::labels for Error`), and the nested lexer that
         `query_start` runs on `&input[pos + 1..]` inside a delimited region of a query.
+        The model follows the repaired code: /repo 45c5794 (`EscapeChar` label = the whole
+        character, `start + len_utf8(ch)`) and 694e815 (the nested lexer's `StringLiteral` error is
+        reported at the opening quote `pos`, not at `pos + 1`).
 -/
 
 namespace Spans
@@ -187,7 +190,8 @@ def charIndicesFrom : Nat → List Nat → List (Nat × Nat)
       | _ => []
 
 /-- the part of UTF-8 validity the span theorems need: a lead byte is followed by the right
-    number of continuation bytes, and no ASCII character is encoded in more than one byte.
+    number of continuation bytes, and no character is encoded in more bytes than `char::len_utf8`
+    says (no overlong forms).
     (Every Rust `&str` satisfies it.) -/
 def wfUtf8 : List Nat → Bool
   | [] => true
@@ -201,13 +205,13 @@ def wfUtf8 : List Nat → Bool
     else if b0 < 240 then
       match rest with
       | b1 :: b2 :: r =>
-        isCont b1 && isCont b2 && decide (128 ≤ ((b0 % 16) * 64 + b1 % 64) * 64 + b2 % 64) && wfUtf8 r
+        isCont b1 && isCont b2 && decide (2048 ≤ ((b0 % 16) * 64 + b1 % 64) * 64 + b2 % 64) && wfUtf8 r
       | _ => false
     else if b0 < 248 then
       match rest with
       | b1 :: b2 :: b3 :: r =>
         isCont b1 && isCont b2 && isCont b3 &&
-          decide (128 ≤ (((b0 % 8) * 64 + b1 % 64) * 64 + b2 % 64) * 64 + b3 % 64) && wfUtf8 r
+          decide (65536 ≤ (((b0 % 8) * 64 + b1 % 64) * 64 + b2 % 64) * 64 + b3 % 64) && wfUtf8 r
       | _ => false
     else false
 
@@ -232,6 +236,10 @@ instance : DecidableEq (Except LexErr Nat) := fun a b =>
   | .ok _, .error _ => isFalse (by intro e; cases e)
   | .error _, .ok _ => isFalse (by intro e; cases e)
 
+/-- `char::len_utf8` -/
+def utf8Len (c : Nat) : Nat :=
+  if c < 128 then 1 else if c < 2048 then 2 else if c < 65536 then 3 else 4
+
 def LexErr.code : LexErr → Nat
   | .stringLiteral _ => 207
   | .literal _ => 208
@@ -242,14 +250,11 @@ def LexErr.code : LexErr → Nat
 def LexErr.label : LexErr → Span
   | .stringLiteral s => ⟨s, s + 1⟩
   | .literal s => ⟨s, s + 1⟩
-  | .escapeChar s _ => ⟨s, s + 1⟩
+  | .escapeChar s none => ⟨s, s + 1⟩
+  -- /repo 45c5794: `start + ch.map_or(1, char::len_utf8)` (was `start + 1`: the label ended
+  -- inside a multi-byte character, former finding class D_lexer_char_span)
+  | .escapeChar s (some c) => ⟨s, s + utf8Len c⟩
   | .unicodeEscape s e => ⟨s, e⟩
-
-/-- finding class D_lexer_char_span: an `EscapeChar` error whose offending character is not
-    ASCII; its one-byte-wide label ends inside that character. -/
-def LexErr.splitsChar : LexErr → Bool
-  | .escapeChar _ (some c) => decide (128 ≤ c)
-  | _ => false
 
 /-- `Error::offset_by` -/
 def LexErr.offsetBy (o : Nat) : LexErr → LexErr
@@ -324,12 +329,18 @@ def lexStringAt0 (src : List Nat) : Except LexErr Nat :=
 
 /-- `query_start`'s look-ahead inside a delimited region: the string literal whose opening quote
     is at byte `pos` is scanned by a NESTED lexer over `&input[pos + 1..]` with `start = 0`, and
-    the error is shifted by `pos + 1` (so `StringLiteral { start }` points one past the quote). -/
+    the error is shifted by `pos + 1`, except that `StringLiteral { start }` is put back on the
+    opening quote. -/
 def lexNestedString (src : List Nat) (pos : Nat) : Except LexErr Nat :=
   let sub := src.drop (pos + 1)
   match scanString sub.length 0 .normal (charIndices sub) with
   | .ok e => .ok (e + pos + 1)
-  | .error e => .error (e.offsetBy (pos + 1))
+  | .error e =>
+    -- /repo 694e815: `StringLiteral { start }` is the opening quote at `pos`, not `0 + pos + 1`
+    -- (was: one past the quote — past the end for `[ "`, former finding class D_eof_span)
+    match e.offsetBy (pos + 1) with
+    | .stringLiteral _ => .error (.stringLiteral pos)
+    | e' => .error e'
 
 /-- the entry shapes covered by the `c33.lexspan` correspondence:
       `"…`                       top-level `string_literal(0)`
